@@ -82,6 +82,35 @@ theorem below_scalar_is_absent (row : List (Bytes × Val)) (k k2 : Bytes) (rest 
     (h : lookup row k = some v) (hs : asRow v = none) : navigate row (k :: k2 :: rest) = none := by
   simp [navigate, h, hs]
 
+/-- `FindValuesAtPath` is the document-order collection through rows and arrays of objects —
+    for every document, every array length and every path (the model of the function and the
+    specification coincide; the function itself is tied to row.go by the correspondence check). -/
+theorem find_is_collection (fuel : Nat) (row : List (Bytes × Val)) (keys : List Bytes) :
+    findValues fuel row keys = collect fuel row keys := by
+  induction fuel generalizing row keys with
+  | zero => cases keys <;> simp [findValues, collect]
+  | succ n ih =>
+    match keys with
+    | [] => simp [findValues, collect]
+    | [k] => simp [findValues, collect]
+    | k :: k2 :: rest =>
+      simp only [findValues, collect]
+      cases hl : lookup row k with
+      | none => simp
+      | some v =>
+        simp only [Option.bind]
+        cases ha : asRow v with
+        | some sub => simp [ih]
+        | none =>
+          simp only
+          split
+          · rename_i xs _
+            congr 1
+            congr 1
+            funext acc x
+            cases x <;> simp [ih]
+          · rfl
+
 /-- Importing at a path touches exactly the addressed top-level entry: every other key keeps
     its value, and no key is added, dropped or moved. -/
 theorem import_touches_only_addressed (env : Env) (row row' : List (Bytes × Val)) (k : Bytes)
